@@ -221,7 +221,11 @@ func (e *fnEnc) call(c *blockCtx, in ssa.Instruction, cc *ssa.CallCommon) []Term
 		}
 		for _, cl := range e.ctr.Get("callsite") {
 			f := strings.Fields(cl.Text)
-			if len(f) == 3 && f[1] == "contract" && (f[0] == label && name == "" || f[0] == dyn && name == "" || f[0] == static && name != "") {
+			staticAny := ""
+			if name != "" {
+				staticAny = shortCallee(name) + "#*"
+			}
+			if len(f) == 3 && f[1] == "contract" && (f[0] == label && name == "" || f[0] == dyn && name == "" || f[0] == static && name != "" || f[0] == staticAny && name != "") {
 				name = qualifyFuncName(e.pkg, e.eng.expandAlias(e.pkg, f[2]))
 				if ctr := e.eng.contracts[name]; ctr != nil {
 					res := e.applyContract(c, in, name, ctr, args, argTypes, cc)
